@@ -236,7 +236,7 @@ impl Core {
             self.spec.layout.iter().map(|s| (*s, false, self.spec.answer(c, *s))).collect();
         if let Some((at, dev)) = &self.spec.deviate_at {
             // (an answer without entries can only grow)
-            if (*at == c || self.spec.deviate_again == Some(c)) && (!ans.is_empty() || matches!(dev, Deviation::Add(_))) {
+            if (*at == c || self.spec.deviate_again == Some(c)) && (!ans.is_empty() || matches!(dev, Deviation::Add(_) | Deviation::AddForeign)) {
                 self.log.borrow_mut()[li].deviated = true;
                 let n = ans.len().max(1);
                 match dev {
@@ -253,7 +253,7 @@ impl Core {
                         ans[p % n] = (*s, false, self.spec.answer(c, *s));
                     }
                     Deviation::Rewidth(p) => ans[p % n].1 = true,
-                    Deviation::ForeignReplaced(_) => {}
+                    Deviation::ForeignReplaced(_) | Deviation::AddForeign => {}
                     Deviation::SwapInPlace(p, q) => {
                         let (a, b) = (ans[p % n].0, ans[q % n].0);
                         if a != b {
@@ -278,6 +278,12 @@ impl Core {
                 value: to_outputvalue(v),
             })
             .collect();
+        if let Some((at, Deviation::AddForeign)) = &self.spec.deviate_at {
+            if *at == c || self.spec.deviate_again == Some(c) {
+                // (not logged: no entry of the test can refer to it)
+                result.push(OutputEntry { signal: &self.foreign, value: OutputValue::Value(77) });
+            }
+        }
         if self.spec.foreign {
             match &self.spec.deviate_at {
                 Some((at, Deviation::ForeignReplaced(s))) if *at == c || self.spec.deviate_again == Some(c) => {
